@@ -128,15 +128,17 @@ def build(names, quiet=False):
         for n in names:
             t = TARGETS[n]
             flv = t["flavour"]
-            objs, changed = [], False
+            objs = []
             for s in t["srcs"]:
                 extra = tuple(t.get("cdefs", {}).get(s, ()))
-                o, c = jobs[(flv, s, extra)]
-                objs.append(o)
-                changed |= c
+                objs.append(jobs[(flv, s, extra)][0])
             out = os.path.join(BUILD, "bin", n)
             os.makedirs(os.path.dirname(out), exist_ok=True)
-            if changed or not os.path.exists(out):
+            # the binary is current iff it was linked from exactly these object contents (objects are shared between targets,
+            # so "an object was recompiled in this invocation" is not enough)
+            lkey = hashlib.sha256(repr([(o, open(o + ".stamp").read()) for o in objs] + [FLAVOURS[flv]["ldflags"], t.get("ld", [])]).encode()).hexdigest()
+            lstamp = out + ".linkstamp"
+            if not os.path.exists(out) or not os.path.exists(lstamp) or open(lstamp).read() != lkey:
                 f = FLAVOURS[flv]
                 cmd = [f["cxx"]] + objs + ["-o", out + ".tmp"] + f["ldflags"] + t.get("ld", [])
                 r = subprocess.run(cmd, stdout=subprocess.PIPE, stderr=subprocess.STDOUT, text=True)
@@ -144,6 +146,7 @@ def build(names, quiet=False):
                     sys.stderr.write("LINK FAILED: %s\n%s\n" % (" ".join(cmd), r.stdout[-6000:]))
                     raise SystemExit(2)
                 os.replace(out + ".tmp", out)
+                open(lstamp, "w").write(lkey)
                 log.append("link " + n)
         if log and not quiet:
             sys.stderr.write("[build] " + "; ".join(log) + "\n")
